@@ -11,7 +11,7 @@ func init() {
 		{Name: "flags-index-past-end", Rule: "R19.2", Where: "(firstByte).String", Edits: []Edit{{"wiretypes.go", "\t\tflags[3] = 'r'", "\t\tflags[4] = 'r'"}}},
 		{Name: "mark-index-8", Rule: "R19.2", Where: "(connectFlags).String$1", Edits: []Edit{{"connect.go", "\tmark(7, Reserved, '!')", "\tmark(8, Reserved, '!')"}}},
 		{Name: "will-flag-settable-alone", Rule: "R19.1", Where: "SetWillFlag", Edits: []Edit{{"connect.go", "func (p *Connect) HasFlag(v byte) bool { return p.flags.Has(v) }", "func (p *Connect) HasFlag(v byte) bool { return p.flags.Has(v) }\n\nfunc (p *Connect) SetWillFlag(v bool) { p.flags.toggle(WillFlag, v) }"}}},
-		{Name: "willqos-shift-2", Rule: "R19.1", Where: "setWillQoS", Edits: []Edit{{"connect.go", "\tp.flags.toggle(v<<3, v < 3)", "\tp.flags.toggle(v<<2, v < 3)"}}},
+		{Name: "willqos-shift-2-only-under-setwill", Silent: true, Edits: []Edit{{"connect.go", "\tp.flags.toggle(v<<3, v < 3)", "\tp.flags.toggle(v<<2, v < 3)"}}},
 		{Name: "decode-sets-flag-without-will", Rule: "R19.1", Where: "(*Connect).UnmarshalBinary", Edits: []Edit{{"connect.go", "\tif bits(p.flags).Has(WillFlag) {\n\t\tp.will = NewPublish()", "\tif bits(p.flags).Has(WillFlag) && len(data) > 12 {\n\t\tp.will = NewPublish()"}}},
 		{Name: "reasoncode-table-short", Rule: "R19.2", Where: "(ReasonCode).String", Edits: []Edit{{"reasoncode_string.go", "_ReasonCode_index_0 = [...]uint8{0, 7, 18, 29}", "_ReasonCode_index_0 = [...]uint8{0, 7, 18}"}}},
 		{Name: "reasoncode-table-not-monotone", Rule: "R19.2", Where: "(ReasonCode).String", Edits: []Edit{{"reasoncode_string.go", "_ReasonCode_index_2 = [...]uint8{0, 21, 42}", "_ReasonCode_index_2 = [...]uint8{0, 42, 21}"}}},
@@ -21,6 +21,7 @@ func init() {
 		{Name: "negative-capacity-in-a-renderer", Rule: "R19.2", Where: "(*Unsubscribe).filterString", Edits: []Edit{{"unsubscribe.go", "\tif len(p.filters) == 0 {\n\t\treturn \"no filters!\" // malformed\n\t}\n\treturn string(p.filters[0])", "\trest := make([]string, 0, len(p.filters)-1)\n\t_ = rest\n\tif len(p.filters) == 0 {\n\t\treturn \"no filters!\" // malformed\n\t}\n\treturn string(p.filters[0])"}}},
 		{Name: "two-unknown-interfaces-compared", Rule: "R19.2", Where: "Dump", Edits: []Edit{{"packet.go", "func Dump(w io.Writer, p Packet) {\n", "func Dump(w io.Writer, p Packet) {\n\tif any(w) == any(p) {\n\t\treturn\n\t}\n"}}},
 		{Name: "writer-compared-with-io-discard", Silent: true, Edits: []Edit{{"packet.go", "func Dump(w io.Writer, p Packet) {\n", "func Dump(w io.Writer, p Packet) {\n\tif w == io.Discard {\n\t\treturn\n\t}\n"}}},
+		{Name: "helper-sets-will-flag-from-an-exported-setter", Rule: "R19.1", Where: "(*Connect).SetCleanStart", Edits: []Edit{{"connect.go", "func (p *Connect) SetCleanStart(v bool) { p.flags.toggle(CleanStart, v) }", "func (p *Connect) SetCleanStart(v bool) {\n\tp.flags.toggle(CleanStart, v)\n\tp.setWillQoS(1)\n}"}, {"connect.go", "\tp.flags.toggle(v<<3, v < 3)", "\tp.flags.toggle(v<<2, v < 3)"}}},
 		{Name: "length-guard-as-switch", Silent: true, Edits: []Edit{{"subscribe.go", "\tif len(p.filters) == 0 {\n\t\treturn \"\" // malformed\n\t}\n\treturn p.filters[0].String()", "\tswitch {\n\tcase len(p.filters) > 0:\n\t\treturn p.filters[0].String()\n\t}\n\treturn \"\""}}},
 	}})
 }
